@@ -258,7 +258,9 @@ struct Out {
 }
 
 fn classify_err(msg: &str) -> String {
-    if msg.contains("invalid UTF-8") {
+    if msg.contains("too large") {
+        "E:toolarge".into()
+    } else if msg.contains("invalid UTF-8") {
         "E:utf8".into()
     } else if msg.contains("negative indices") {
         "E:neg".into()
@@ -572,6 +574,57 @@ impl Ctx {
                                                 }
                                             }
                                             rs.push(format!("s{}", hex(&bytes)));
+                                        }
+                                    }
+                                }
+                            }
+                            rs.join(" ")
+                        }
+                    }
+                } else {
+                    "SKIP".to_string()
+                }
+            }
+            "apisp" => {
+                // the public Rust API: StringSlice::<usize>::from(buffer).with_bounds(pre..pre+len).split(off)
+                let d = Desc::parse(toks[1]).expect("desc");
+                let hi: usize = toks[2].parse().unwrap();
+                out.nontrivial = d.s().chars().count() >= 1;
+                if let Desc::Slice { pre, s, post } = &d {
+                    let buf = format!("{}{}{}", "x".repeat(*pre), s, post);
+                    match koto_parser::StringSlice::<usize>::from(buf.as_str()).with_bounds(*pre..*pre + s.len()) {
+                        None => "E:base".to_string(),
+                        Some(base) => {
+                            let mut rs = vec![];
+                            for off in 0..=hi {
+                                match kvh::catch(|| base.split(off)) {
+                                    Err(p) => {
+                                        out.panic = Some(format!("split({}): {}", off, p));
+                                        rs.push("PANIC".to_string());
+                                    }
+                                    Ok(None) => {
+                                        if off <= s.len() && s.is_char_boundary(off) {
+                                            out.d_fail.push(("api:split-refused".into(), format!("offset {} is a boundary inside the slice", off)));
+                                        }
+                                        rs.push("none".into());
+                                    }
+                                    Ok(Some((p, r))) => {
+                                        if off <= s.len() {
+                                            let (pb, rb) = (p.as_str().as_bytes(), r.as_str().as_bytes());
+                                            if !s.is_char_boundary(off) || pb != s[..off].as_bytes() || rb != s[off..].as_bytes() {
+                                                out.d_fail.push(("api:split".into(), format!("offset {}: ({}, {})", off, hex(pb), hex(rb))));
+                                            }
+                                            rs.push(format!("({} {})", hex(pb), hex(rb)));
+                                        } else {
+                                            // beyond the slice's own end: only the first half can be looked at
+                                            // (the second has start > end; as_str on it is undefined behaviour)
+                                            let pb = p.as_str().as_bytes();
+                                            if buf.as_bytes().get(*pre..*pre + off) == Some(pb) {
+                                                out.attributed.push(("F-C15-12".into(), format!("split({}) beyond the slice's own end ({}) succeeded; the first half reads {} bytes of the shared buffer", off, s.len(), off)));
+                                            } else {
+                                                out.d_fail.push(("api:split".into(), format!("offset {} beyond the end returned {}", off, hex(pb))));
+                                            }
+                                            rs.push(format!("({} !)", hex(pb)));
                                         }
                                     }
                                 }
@@ -1074,11 +1127,36 @@ impl Ctx {
             }
             "repeat" => {
                 let n: i64 = toks[2].parse().unwrap();
-                match call(&mut self.rt, "repeat", &[sv, n.into()], out) {
-                    Err(e) => fail_line(&e),
+                // sizes above isize::MAX cannot be a String at all: a runtime error is expected; sizes that
+                // merely cannot be allocated are never generated (allocation failure is out of scope)
+                let too_large = n >= 0 && (s.len() as u128) * (n as u128) > isize::MAX as u128;
+                assert!(n < 0 || too_large || s.is_empty() || (s.len() as u128) * (n as u128) < (1 << 24), "repeat request too big to run");
+                let r = self.rt.call("repeat", &[sv, n.into()]);
+                match r {
+                    Err(e) => {
+                        if e.starts_with("PANIC") {
+                            if too_large && e.contains("capacity overflow") {
+                                out.attributed.push(("F-C15-11".into(), format!("repeat {} x {} bytes: panic `capacity overflow` instead of a runtime error", n, s.len())));
+                                "PANIC:capacity overflow".to_string()
+                            } else {
+                                out.panic = Some(format!("repeat: {}", e));
+                                "PANIC".to_string()
+                            }
+                        } else {
+                            fail_line(&e)
+                        }
+                    }
                     Ok(v) => {
                         let l = unwrap_res(&v, &mut out.invalid);
-                        let w = if n < 0 { "E:negative".to_string() } else { format!("s{}", hex(s.repeat(n as usize).as_bytes())) };
+                        let w = if n < 0 {
+                            "E:negative".to_string()
+                        } else if s.is_empty() {
+                            "sx".to_string()
+                        } else if too_large {
+                            "E:toolarge".to_string()
+                        } else {
+                            format!("s{}", hex(s.repeat(n as usize).as_bytes()))
+                        };
                         if l != w {
                             out.d_fail.push(("repeat:spec".into(), format!("expected {} got {}", w, l)));
                         }
@@ -1178,6 +1256,26 @@ impl Ctx {
                         if let StringContents::Literal(c) = &st.contents {
                             found = Some(ast.constants().get_str(*c).to_string());
                         }
+                    }
+                }
+                // (D) \u{…} takes one to six hex digits (language guide)
+                {
+                    let b = body.as_bytes();
+                    let mut i = 0;
+                    let mut esc = false;
+                    while i < b.len() {
+                        if esc {
+                            esc = false;
+                            if b[i] == b'u' && i + 1 < b.len() && b[i + 1] == b'{' {
+                                let n = b[i + 2..].iter().take_while(|c| c.is_ascii_hexdigit()).count();
+                                if b.get(i + 2 + n) == Some(&b'}') && (n == 0 || n > 6) {
+                                    out.attributed.push(("F-C15-13".into(), format!("\\u{{…}} with {} hex digits is accepted", n)));
+                                }
+                            }
+                        } else if b[i] == b'\\' {
+                            esc = true;
+                        }
+                        i += 1;
                     }
                 }
                 match found {
@@ -1391,8 +1489,14 @@ impl Ctx {
             StringAlignment::Right => (missing, 0),
             StringAlignment::Center => (missing / 2, missing - missing / 2),
         };
-        let want = format!("{}{}{}", fill.repeat(l), rendered, fill.repeat(r));
-        if res != want {
+        let naive = format!("{}{}{}", fill.repeat(l), rendered, fill.repeat(r));
+        // the `0` flag (fill "0" with Default alignment: only the flag produces that) pads a number after
+        // its sign — the text must still be the number
+        let zero_flag = is_num && fo.alignment == StringAlignment::Default && fill == "0" && rendered.starts_with('-') && missing > 0;
+        let want = if zero_flag { format!("-{}{}", fill.repeat(l), &rendered[1..]) } else { naive.clone() };
+        if zero_flag && res == naive {
+            out.attributed.push(("F-C15-14".into(), format!("options {:?}: {:?} — the zeroes are in front of the sign", opts, res)));
+        } else if res != want {
             out.d_fail.push(("align_spec".into(), format!("options {:?}: expected {:?} got {:?}", opts, want, res)));
             return;
         }
@@ -1596,6 +1700,7 @@ fn string_requests(d: &Desc, full_set: bool, out: &mut Vec<String>) {
     }
     if let Desc::Slice { post, .. } = d {
         out.push(format!("apiwb {} {}", dt, s.len() + post.len() + 1));
+        out.push(format!("apisp {} {}", dt, s.len() + post.len() + 1));
     }
     out.push(format!("chars {} {}", dt, g));
     out.push(format!("rchars {} {}", dt, g));
@@ -1615,6 +1720,13 @@ fn string_requests(d: &Desc, full_set: bool, out: &mut Vec<String>) {
         }
         for k in [-1, 0, 1, 3] {
             out.push(format!("repeat {} {}", dt, k));
+        }
+        // a count that makes the result larger than isize::MAX (never one that is merely too big to allocate)
+        if s.len() != 1 {
+            out.push(format!("repeat {} {}", dt, i64::MAX));
+        }
+        if s.len() >= 4 {
+            out.push(format!("repeat {} {}", dt, i64::MAX / 2));
         }
     } else {
         for p in [",", "é", "\r\n", ""] {
